@@ -62,6 +62,36 @@ CHECKS = {
         "and the DSL legitimately differ.",
         "4/C13",
     ),
+    "C01": (
+        "differential runtime monitor: Pandas executor vs to_sql() executed on real SQLite 3.40, trigger monitors",
+        "Random well-typed pipelines over generated tables (nulls, duplicates, ties, empty tables) are evaluated by the "
+        "Pandas executor and, as SQLite-dialect SQL, on an in-process SQLite through the repository's own DBHandle; "
+        "tables are compared as column set + row multiset (+ key order after a final order_rows). The data-aware "
+        "generator keeps executions outside the triggers of recorded divergences and runtime trigger monitors confirm "
+        "it; any mismatch outside them is a violation; failing cases are shrunk and replayable. Listed witnesses of "
+        "recorded and repaired defects are replayed on every run.",
+        "Trusted: SQLite 3.40 as the SQL engine; frames_match tolerance 1e-7; cases producing non-finite "
+        "intermediates are discarded; known-finding hazard domains (known_findings.json) are not judged.",
+        "4/C01",
+    ),
+    "C08": (
+        "runtime contract on ViewRepresentation.eval/transform/ex + direct check of SQL result frames",
+        "A postcondition installed on the real eval/transform/ex compares every returned frame's column set with the "
+        "pipeline's declared column_names (Pandas, Polars eager/lazy); frames read back from SQLite and from the "
+        "PostgreSQL-dialect text on the SQLite surrogate are checked the same way; column order is checked after a "
+        "final select_columns. Driven by random pipelines incl. empty inputs and overwriting/dropping steps.",
+        "Trusted: nothing beyond the frames' own column lists; the PostgreSQL dialect runs on a SQLite surrogate.",
+        "4/C08",
+    ),
+    "C19": (
+        "runtime snapshot contract on ViewRepresentation.eval/transform/ex; repeat evaluation",
+        "Every input frame is snapshotted before eval/transform/ex/>> and compared after (values, dtypes, columns, "
+        "index, index names, attrs; Polars: equals + schema) by a contract on the real methods; inputs are presented "
+        "with exotic indexes/dtypes and as views; each pipeline is evaluated twice and the two tables compared.",
+        "Trusted: pandas.DataFrame.equals / polars equals for value comparison. Row order of a result is only compared "
+        "after a final order_rows.",
+        "4/C19",
+    ),
 }
 
 NOT_BUILT = "check not built yet (build in progress, see DESIGN.md section 8)"
